@@ -32,7 +32,7 @@ theorem np_objectField : NoPanic objectField :=
 
 theorem np_index : NoPanic index :=
   np_alt (np_map _ np_i32)
-    (np_alt (np_map _ (np_preceded (np_tuple4 (np_tagNoCase _) np_ws (np_char _) np_ws) np_i32))
+    (np_alt (np_map _ (np_preceded (np_tuple4 (np_tagNoCase _) np_ws (np_char _) np_ws) np_i64))
       (np_alt (np_map _ (np_preceded (np_tuple4 (np_tagNoCase _) np_ws (np_char _) np_ws) np_i32))
         (np_map _ (np_tagNoCase _))))
 
@@ -106,9 +106,9 @@ theorem np_existsFn : NoPanic (existsFn exprOr) :=
 theorem np_exprAtom (rp : Bool) : NoPanic (exprAtom exprOr rp) :=
   np_alt (np_map _ (np_tuple3 (np_delimited np_ws (np_innerExpr rp) np_ws) np_binaryArithOp
       (np_delimited np_ws (np_innerExpr rp) np_ws)))
-    (np_alt (np_map _ (np_pair np_unaryArithOp (np_delimited np_ws (np_innerExpr rp) np_ws)))
-      (np_alt (np_map _ (np_tuple3 (np_delimited np_ws (np_innerExpr rp) np_ws) np_op
+    (np_alt (np_map _ (np_tuple3 (np_delimited np_ws (np_innerExpr rp) np_ws) np_op
           (np_delimited np_ws (np_innerExpr rp) np_ws)))
+      (np_alt (np_map _ (np_pair np_unaryArithOp (np_delimited np_ws (np_innerExpr rp) np_ws)))
         (np_alt (np_delimited (np_terminated (np_char _) np_ws) (hrec rp)
             (np_preceded np_ws (np_char _)))
           (np_map _ (np_existsFn hrec)))))
